@@ -2,6 +2,7 @@ package main
 
 import (
 	"encoding/json"
+	"os/exec"
 	"flag"
 	"fmt"
 	"os"
@@ -89,6 +90,9 @@ func checkMain(args []string) {
 	seed, _ := strconv.Atoi(os.Getenv("VERIF_SEED"))
 	t0 := time.Now()
 	res := runCheck(*repo, *root, *prop, *tier, seed)
+	if *tier == "thorough" && os.Getenv("VERIF_REPO") == "" && res.ToolError == "" {
+		res.Selftest = runSeededSelftest(*repo, *root, *prop, seed)
+	}
 	res.WallS = time.Since(t0).Seconds()
 	if !*noEvidence {
 		writeEvidence(*root, res)
@@ -126,6 +130,7 @@ type CheckResult struct {
 	ToolError   string
 	Uncontracted []string
 	CoverSat    int
+	Selftest    map[string]interface{}
 	Level       string
 	CoverRelaxed int
 	CoverUnknown int
@@ -517,6 +522,7 @@ func writeEvidence(root string, r *CheckResult) {
 		"solver_time_ms": r.SolverMs,
 		"bounded":       r.Bounded,
 		"known_findings_reported": r.Known,
+		"selftest_seeded_changes": r.Selftest,
 		"vacuity_covers": map[string]interface{}{"reachable_sat": r.CoverSat, "reachable_sat_quantifier_free_relaxation": r.CoverRelaxed, "undecided": r.CoverUnknown, "unreachable": r.CoverUnsat,
 			"rule": "one query per return statement of every function under contract: premises + path condition must be satisfiable; guards against contradictory contracts/axioms"},
 		"uncontracted_callees_havocked": r.Uncontracted,
@@ -537,4 +543,40 @@ func writeEvidence(root string, r *CheckResult) {
 	data, _ := json.MarshalIndent(ev, "", " ")
 	os.MkdirAll(filepath.Join(root, "evidence"), 0755)
 	os.WriteFile(filepath.Join(root, "evidence", r.Property+".json"), data, 0644)
+}
+
+// runSeededSelftest (thorough tier): every seeded change recorded for this property under /verif/seeded is applied to a
+// scratch copy of the repository (removed afterwards) and the property's quick check is run there; the change must be
+// reported. The result is evidence about the strength of the check; it does not change the verdict on the real tree.
+func runSeededSelftest(repo, root, prop string, seed int) map[string]interface{} {
+	dirs, _ := filepath.Glob(filepath.Join(root, "seeded", prop+"-*"))
+	sort.Strings(dirs)
+	var killed, missed, skipped []string
+	for _, d := range dirs {
+		patch := filepath.Join(d, "patch.diff")
+		scr, err := os.MkdirTemp("", "govc-seed-")
+		if err != nil {
+			continue
+		}
+		ok := exec.Command("cp", "-r", repo+"/.", scr).Run() == nil
+		if ok {
+			c := exec.Command("patch", "-p1", "-s", "--fuzz=3", "-i", patch)
+			c.Dir = scr
+			ok = c.Run() == nil
+		}
+		if !ok {
+			skipped = append(skipped, filepath.Base(d)+" (patch does not apply to the current tree)")
+			os.RemoveAll(scr)
+			continue
+		}
+		r := runCheck(scr, root, prop, "quick", seed)
+		if r.Violations > 0 {
+			killed = append(killed, filepath.Base(d))
+		} else {
+			missed = append(missed, filepath.Base(d))
+		}
+		os.RemoveAll(scr)
+	}
+	return map[string]interface{}{"detected": killed, "missed": missed, "skipped": skipped,
+		"rule": "each seeded property-breaking change (compiles, passes the pinned suite) applied to a scratch copy; the quick check must report a violation"}
 }
